@@ -17,8 +17,9 @@ generated user-ordered case, for both states of the source.
 * kernel-checked: the tree model with the repair gives `A` back on the two witnesses of F15 (`reverse_apply_userord_fails`,
   `reverse_apply_userord_delete_fails` in Props/C13.lean are stated for the unrepaired source).
 OPEN: the bridge from the list core to the tree model (`Diff.diff` / `Diff.reverseRepaired` / `Diff.apply` on trees with
-user-ordered lists) — the same gap as for C06 `userord_apply_diff` (see the end of Props/C06.lean); position-addressed lists
-(F15 (c)) and the empty-string anchor (F15 (d), F122) are not repaired.
+user-ordered lists) — the same gap as for C06 `userord_apply_diff` (see the end of Props/C06.lean); the position arithmetic of
+F15 (c) (`revPosition`) is in the model and compared with the code on every generated case but has no general theorem (the list
+core addresses by identity); the empty-string anchor (F15 (d), a consequence of F122) is not repaired.
 -/
 namespace LyModel.Props.C13RevUO
 open LyModel LyModel.Tree LyModel.Diff LyModel.Props.C13
@@ -94,6 +95,32 @@ example : Generated.Diff13.reverseUserordRepaired = true →
 example : Generated.Diff13.reverseUserordRepaired = true →
     (match reverseApply uoS true [ul 0, ul 1] [ul 1] with
       | .ok r => dataEqL true r [ul 0, ul 1] | .error _ => false) = true := by decide +kernel
+
+/-! ### position-addressed lists (finding F15 (c)): `lyd_diff_reverse_position` -/
+
+/-- `leaf-list sl { config false; type uint8; }` — a state leaf-list is addressed by position -/
+def posS : Schema :=
+  { modName := "uopos", nodes := [ { depth := 0, kind := .leaflist, name := "sl", ty := .uint8, userord := true, config := false } ] }
+
+example : posS.isDupInst 0 = true ∧ posS.isUserOrd 0 = true := by decide
+
+/-- A = `0 1`, B = `1 0`: the forward move is `sl=1 position='' orig-position='1'`; switched (pinned code) it asks for the place
+after instance 1 — the moved instance itself — and apply fails; `lyd_diff_reverse_position` makes `position='2'
+orig-position=''` of it and apply gives `0 1` back -/
+example : Generated.Diff13.reverseUserordRepaired = false →
+    (match reverseApply posS true [ul 0, ul 1] [ul 1, ul 0] with
+      | .ok _ => false | .error e => e == .einval) = true := by decide +kernel
+example : Generated.Diff13.reverseUserordRepaired = true →
+    (match reverseApply posS true [ul 0, ul 1] [ul 1, ul 0] with
+      | .ok r => dataEqL true r [ul 0, ul 1] | .error _ => false) = true := by decide +kernel
+/-- the arithmetic on its own: forward `position = p`, `orig-position = q`; the two cases `p ≤ q` (moved towards the front) and
+`p > q`, and a reversed move reverses back -/
+example : (match revPosition (.term 0 {} [("orig-position", bs "3"), ("position", bs "1")] []) with
+    | .ok n => n.metas == [("orig-position", bs "1"), ("position", bs "4")] | .error _ => false) = true := by decide +kernel
+example : (match revPosition (.term 0 {} [("orig-position", bs "1"), ("position", bs "4")] []) with
+    | .ok n => n.metas == [("orig-position", bs "3"), ("position", bs "1")] | .error _ => false) = true := by decide +kernel
+example : (match revPosition (.term 0 {} [("orig-position", bs "1"), ("position", [])] []) with
+    | .ok n => n.metas == [("orig-position", []), ("position", bs "2")] | .error _ => false) = true := by decide +kernel
 
 /-- on diffs without user-ordered nodes the repaired reversal is the pinned one (`Diff.reverse_of_noUO`): the theorems of
 Props/C13.lean about the fragment hold for both values of the switch -/
